@@ -217,6 +217,8 @@ def work(arg: tuple) -> dict:
                            f'after {[h[0] for h in hist]}, run {e[0]}: same outcome but a different trace than on a fresh chart', list(hist) + [e])
                 if x.input_copies[0] != given:
                     report('input-kwargs-mutated', f'run {e[0]}: caller dict became {x.input_copies[0]!r}', list(hist) + [e])
+                if x.meta_copies[0] != {'tenant': 't', 'trace': [1, 2]}:
+                    report('input-kwargs-mutated', f'run {e[0]}: caller meta dict became {x.meta_copies[0]!r}', list(hist) + [e])
                 after = snapshot(chart)
                 if after != before:
                     diff = _diff(before, after)
